@@ -574,6 +574,23 @@ class _SetOperation(Selectable, Term):  # type:ignore[misc]
         self._offset = cast(ValueWrapper, self.wrap_constant(offset))
 
     @builder
+    def replace_table(  # type:ignore[return,override]
+        self, current_table: "Table" | None, new_table: "Table" | None
+    ) -> "Self":
+        """
+        Replaces all occurrences of the specified table with the new table in every operand and in ORDER BY.
+        """
+        self.base_query = self.base_query.replace_table(current_table, new_table)
+        self._set_operation = [
+            (operation, query.replace_table(current_table, new_table))
+            for operation, query in self._set_operation
+        ]
+        self._orderbys = [
+            (field.replace_table(current_table, new_table), orient)
+            for field, orient in self._orderbys
+        ]
+
+    @builder
     def union(self, other: Selectable) -> "Self":  # type:ignore[return]
         self._set_operation = [  # type:ignore[list-item]
             *self._set_operation,
